@@ -10,6 +10,7 @@ from harness.ns import QNAMES
 ID = "C11"
 LEVEL_TEXT = ("Lean 4 theorems about the executable model of the code (all inputs, by induction), tied to /repo by tables regenerated on every run (decide) and by differential execution of model and implementation; the property oracle is also run on the implementation for every case. Composition, arity guard and wrapping are proved; 'the chain returns the left-to-right set algebra of its operands' is executed on SQLite.")
 LEAN_MODULES = ["Pypika.Props.C11"]
+TRACE_BUILDER = True   # builder calls made by this check are also run through Pypika.B.step (harness/trace.py)
 THEOREMS = ["Pypika.C11.ops_in_order", "Pypika.C11.arity_mismatch_raises", "Pypika.C11.arity_ok_no_raise",
             "Pypika.C11.setop_layout", "Pypika.C11.operand_wrapped_iff"]
 AGREE = ["Pypika.Agree.setop_pagination", "Pypika.Agree.classes_complete"]
